@@ -1614,11 +1614,19 @@ class RedirectAgent:
         """
         return _urljoin(requestURI, location)
 
-    def _handleRedirect(self, response, method, uri, headers, redirectCount):
+    def _handleRedirect(
+        self, response, method, uri, headers, redirectCount, requestURI=None
+    ):
         """
         Handle a redirect response, checking the number of redirects already
         followed, and extracting the location header fields.
+
+        @param uri: The I{URI} of the original request.
+        @param requestURI: The I{URI} of the request C{response} answers, if
+            it is not the original request.
         """
+        if requestURI is None:
+            requestURI = uri
         if redirectCount >= self._redirectLimit:
             err = error.InfiniteRedirection(
                 response.code, b"Infinite redirection detected", location=uri
@@ -1630,7 +1638,7 @@ class RedirectAgent:
                 response.code, b"No location header field", uri
             )
             raise ResponseFailed([Failure(err)], response)
-        location = self._resolveLocation(uri, locationHeaders[0])
+        location = self._resolveLocation(requestURI, locationHeaders[0])
         if headers:
             parsedURI = URI.fromBytes(uri)
             parsedLocation = URI.fromBytes(location)
@@ -1655,20 +1663,31 @@ class RedirectAgent:
 
         deferred.addCallback(_chainResponse)
         return deferred.addCallback(
-            self._handleResponse, method, uri, headers, redirectCount + 1
+            self._handleResponse, method, uri, headers, redirectCount + 1, location
         )
 
-    def _handleResponse(self, response, method, uri, headers, redirectCount):
+    def _handleResponse(
+        self, response, method, uri, headers, redirectCount, requestURI=None
+    ):
         """
         Handle the response, making another request if it indicates a redirect.
+
+        @param uri: The I{URI} of the original request.
+        @param requestURI: The I{URI} of the request C{response} answers, if
+            it is not the original request; a relative redirect location is
+            resolved against it.
         """
         if response.code in self._redirectResponses:
             if method not in (b"GET", b"HEAD"):
                 err = error.PageRedirect(response.code, location=uri)
                 raise ResponseFailed([Failure(err)], response)
-            return self._handleRedirect(response, method, uri, headers, redirectCount)
+            return self._handleRedirect(
+                response, method, uri, headers, redirectCount, requestURI
+            )
         elif response.code in self._seeOtherResponses:
-            return self._handleRedirect(response, b"GET", uri, headers, redirectCount)
+            return self._handleRedirect(
+                response, b"GET", uri, headers, redirectCount, requestURI
+            )
         return response
 
 
